@@ -191,7 +191,11 @@ class PASHARungSystem(PromotionRungSystem):
         )
         for epoch in range(top_epoch, bottom_epoch, -1):
             if len(self.epoch_to_trials[epoch]) > 1:
-                for pair in itertools.combinations(self.epoch_to_trials[epoch], 2):
+                # Note: Iterate in sorted order. The order of a set is not
+                # preserved when the scheduler is pickled
+                for pair in itertools.combinations(
+                    sorted(self.epoch_to_trials[epoch]), 2
+                ):
                     c1, c2 = pair[0], pair[1]
                     if (c1, c2) not in seen_pairs:
                         seen_pairs.add((c1, c2))
